@@ -436,6 +436,18 @@ Fixpoint upto_false (evs : list ev) : list ev :=
   | e :: evs' => e :: upto_false evs'
   end.
 
+(* the transport encoding of the harness sends a run of identical consecutive bounds() observations once *)
+Fixpoint dedup_B (prev : option rng) (evs : list ev) : list ev :=
+  match evs with
+  | [] => []
+  | EB b :: evs' =>
+      match prev with
+      | Some p => if rng_eqb p b then dedup_B prev evs' else EB b :: dedup_B (Some b) evs'
+      | None => EB b :: dedup_B (Some b) evs'
+      end
+  | ET r :: evs' => ET r :: dedup_B None evs'
+  end.
+
 Record ccase := { cc_case : case; cc_root : bool }.
 
 Definition model_trace (a b : tree) : option (list ev) :=
@@ -452,7 +464,7 @@ Definition modelled_C04 (c : ccase) : bool :=
 Definition corr_C04 (c : ccase) : bool :=
   if cc_root c then
     match model_trace (c_a (cc_case c)) (c_b (cc_case c)), c_objs (cc_case c) with
-    | Some tr, o :: _ => evs_eqb tr (upto_false (ot_events o))
+    | Some tr, o :: _ => evs_eqb (dedup_B None tr) (upto_false (ot_events o))
     | Some _, [] => false
     | None, _ => true
     end
